@@ -1,30 +1,51 @@
-"""pyxel/outputs/{outputs,utils}.py + the save_to_files call in exposure.py -> Gen_C19.v
+"""pyxel/outputs/{outputs,utils}.py, observation/{observation,observation_dask}.py, exposure/exposure.py -> Gen_C19.v
 
-Extracted (fail closed on any other shape):
-  * create_output_directory: the retry loop must be `add = ""; count = 0; while True: try: <dir built from
-    an f-string ending in {add}>; <dir>.mkdir(parents=True, exist_ok=<bool literal>) except FileExistsError:
-    count += 1; add = "_" + str(count); continue else: return <dir>`  -> src_mkdir_exclusive
-  * every writer `to_<fmt>` / `write_to_<fmt>` of outputs/utils.py: does it test `<path>.exists()` before
-    writing and what does it do then (raise FileExistsError / return = skip); if it has no test, does it
-    delegate to astropy `writeto(..., overwrite=False)` (= raises) -> Raise | Skip | Overwrite
-  * save_to_files: the `match extension` dispatch (writer or NotImplementedError per format), its
-    `overwrite` default and whether run_pipeline passes `overwrite`
-  * Outputs.save_to_file: the `save_methods` table; the extension of each to_* template; whether it
-    uses the first item of each dict only or loops over `dct.items()`; whether the per-bucket result
-    replaces (`all_filenames[k] = v`) or merges (`all_filenames.setdefault(k, {}).update(v)`)
-  * Outputs.build_filenames: reads no attribute of `self` other than `save_data_to_file` (so nothing
-    remembered from an earlier call can enter), iterates it directly, two f-string templates
-    detector_{bucket}.{ext} / detector_{bucket}_{suffix}.{ext}
-  * Observation._run_single_pipeline: the `outputs=` argument of its run_pipeline call (self.outputs | None)
-  * run_pipelines_with_dask: the "outputs" entry of the kwargs given to apply_ufunc (outputs | deepcopy(outputs))
+Every function is READ SYMBOLICALLY (section "symbolic reading" below: locals substituted by what they were
+assigned, module-level constants resolved, private helpers of the package followed, every statement paired with
+its path condition as signed atoms), so a row states WHAT must hold on the way to a statement, not how the
+function is laid out.  Rows fail closed (TranslationError -> broken obligation, FALLBACK table for the search).
+
+Extracted - only what the theorems over Gen_C19.v need; everything else about these functions is established by
+the correspondence (names tried, numbers chosen, bytes written are compared with the model on executed cases):
+  * create_output_directory -> src_mkdir_exclusive: the directory is made by exactly one `<p>.mkdir(...)` whose
+    `exist_ok` resolves to a constant; that call sits in a `try` with exactly one FileExistsError handler (none
+    broader) which neither returns, breaks nor raises, inside an unbounded loop (`while True`, `for .. in
+    itertools.count()`); no path condition looks at the file system first (exists / is_dir); the one return
+    inside the loop returns the very expression mkdir was called on.  NOT read: how the candidate name / the
+    suffix / the prefix is computed, try-else vs return after the try, counters.
+  * every writer `to_<fmt>` / `write_to_<fmt>` -> Raise | Skip | Overwrite: the one statement reached under the atom
+    `<p>.exists()` (true) - alone or with `overwrite` (false) and with nothing else deciding - that raises
+    FileExistsError / leaves by a bare return, before any write call; no test: astropy `writeto(overwrite=<const>)`.
+    Spelling free: nested ifs, `and`, inverted test with the write in the other branch, De Morgan, early exit,
+    alias of the path, named boolean, private helper.
+  * save_to_files -> t_new: for every format the writer call (or raise) whose path condition holds
+    `<subject> == "<fmt>"` / `<subject> in (...)` for ONE subject - `match`, if/elif, nested; the writer receives the
+    function's `overwrite` (keyword or positional) ; `overwrite` default and the value passed in exposure.py.
+  * Outputs.save_to_file -> t_old (the one dict display format -> to_*, bound locally or at module level, and
+    indexed), t_old_ext (the `<name>_?.<ext>` template of each to_*, constants folded), t_old_all_items (iterates
+    the items of every dict of self.save_data_to_file - loop or comprehension - vs unpacks a first item),
+    t_old_merge (`<result>.setdefault(k, {}).update(v)` vs `<result>[k] = v`, through aliases)
+  * Outputs.build_filenames: reads no attribute of `self` other than `save_data_to_file` - private helper methods
+    included - no global / nonlocal / decorator / attribute store, and iterates it
+  * Observation._run_single_pipeline -> t_seq_new_stage: `outputs=` of its one run_pipeline call (self.outputs | None)
+  * run_pipelines_with_dask -> t_dask_snapshot: the "outputs" entry of the kwargs of apply_ufunc, through aliases
+    (outputs | deepcopy(outputs))
+  * apply_run_number -> src_auto: the argument of `<template>.replace('?', '{}').format(..)` as leaves of a
+    conditional value: `run_number + 1` exactly when run_number is not None, else `<largest> + step` with
+    <largest> = sorted(X)[-1] | max(X) | max(X, default=d), X = <per-name function>(n) for n in
+    glob(<template>.replace('?', '*')); first number = the int leaf chosen by a test of X, or d + step; the
+    per-name function (nested, module-level or imported) converts the `\\d+$` match with int().
 """
 from __future__ import annotations
 
 import ast
+import copy
 import re
 from pathlib import Path
 
-from .common import HEADER, body_no_doc, fail, find_func, parse
+from harness.core import TranslationError
+
+from .common import HEADER, body_no_doc, fail, parse
 
 FMT = {"fits": "Fits", "hdf": "Hdf", "npy": "Npy", "txt": "Txt", "csv": "Csv", "png": "Png", "jpg": "Jpg",
        "jpeg": "Jpeg"}
@@ -32,240 +53,997 @@ OLD_WRITERS = ["to_fits", "to_hdf", "to_npy", "to_txt", "to_csv", "to_png", "to_
 NEW_WRITERS = ["write_to_fits", "write_to_jpg", "write_to_npy"]
 
 
-# ------------------------------------------------------------------------------------------ mkdir loop
+# ------------------------------------------------------------------------------------------ symbolic reading
+#
+# General normalisations (no row below looks at statement order, local names, message texts or the way a
+# condition is nested): a function is read by a small symbolic executor that
+#   * substitutes every local by the expression it was assigned (single-assignment aliases, named
+#     intermediate results, annotated or not; `x = a if c else b` == if/else assignment: both give IfExp),
+#     and a free Name by its single module-level assignment (constants / tuples / compiled regexps moved to
+#     module level),
+#   * follows calls to private helpers (`_name(...)`, `self._name(...)`, nested functions) of the same module
+#     or imported from the same package: their statements are read in place with the parameters bound to the
+#     (substituted) arguments, the returned value is rebuilt from the helper's return statements,
+#   * records, for every simple statement, the PATH CONDITION under which it is reached: enclosing `if`/`elif`/
+#     `match` tests with their polarity, and - for guard clauses / early return / raise / continue - the negation
+#     of every earlier test whose branch left the block (so `if c: raise` + rest == `if c: raise else: rest`, an
+#     inverted test with swapped branches gives the same literals),
+#   * drops docstrings, annotations without value, `pass`, imports and logging / warnings calls,
+#   * `match x: case "a" | "b"` is read as `x in ("a", "b")`, `case "a"` as `x == "a"`, `case _` as else.
+# `literals()` splits a path condition into signed atoms: `not`, `and` (true side), `or` (false side), chained
+# comparisons (`a <= x <= b` == `a <= x and x <= b`), `is not` / `!=` / `not in` as negated `is` / `==` / `in`.
+# Anything the executor does not know (loop-carried variables, stores into attributes a substituted value
+# mentions, helpers with *args) stays opaque, and the rows fail closed on it.
+
+_LOG_ROOTS = {"logging", "logger", "log", "_logger", "_log", "warnings"}
+
+
+def _dump(n) -> str:
+    return ast.dump(n) if isinstance(n, ast.AST) else repr(n)
+
+
+def _opaque(name: str) -> ast.Name:
+    return ast.Name(id=name + "'", ctx=ast.Load())
+
+
+def _stored_names(nodes) -> set[str]:
+    out = set()
+    for st in nodes:
+        for n in ast.walk(st):
+            if isinstance(n, ast.Name) and isinstance(n.ctx, (ast.Store, ast.Del)):
+                out.add(n.id)
+            elif isinstance(n, (ast.FunctionDef, ast.ClassDef)):
+                out.add(n.name)
+    return out
+
+
+def _simple_const(v: ast.AST) -> bool:
+    """Module-level values that may be substituted for their name: literals, displays, names, compiled regexps."""
+    for n in ast.walk(v):
+        if isinstance(n, ast.Call):
+            f = ast.unparse(n.func)
+            if f not in ("re.compile", "frozenset", "tuple", "Path", "set", "dict"):
+                return False
+        elif isinstance(n, (ast.Lambda, ast.Await, ast.Yield, ast.YieldFrom, ast.NamedExpr, ast.ListComp, ast.SetComp,
+                            ast.DictComp, ast.GeneratorExp)):
+            return False
+    return True
+
+
+class Mod:
+    """One parsed module of the package: functions, classes, single module-level assignments, package imports."""
+    _cache: dict = {}
+
+    def __init__(self, repo: Path, rel: str):
+        self.repo, self.rel = repo, rel
+        self.tree = parse(repo, rel)
+        self.funcs = {n.name: n for n in self.tree.body if isinstance(n, ast.FunctionDef)}
+        self.classes = {n.name: n for n in self.tree.body if isinstance(n, ast.ClassDef)}
+        seen: dict = {}
+        for st in self.tree.body:
+            if isinstance(st, ast.Assign) and len(st.targets) == 1 and isinstance(st.targets[0], ast.Name):
+                seen.setdefault(st.targets[0].id, []).append(st.value)
+            elif isinstance(st, ast.AnnAssign) and isinstance(st.target, ast.Name) and st.value is not None:
+                seen.setdefault(st.target.id, []).append(st.value)
+            elif not isinstance(st, (ast.FunctionDef, ast.ClassDef, ast.Import, ast.ImportFrom)):
+                for nm in _stored_names([st]):          # assigned in an if/try/loop at module level: not a constant
+                    seen.setdefault(nm, []).extend([None, None])
+        rebound = {x for f in ast.walk(self.tree) if isinstance(f, ast.Global) for x in f.names}
+        self.consts = {k: v[0] for k, v in seen.items() if len(v) == 1 and v[0] is not None and k not in rebound
+                       and k not in self.funcs and k not in self.classes and _simple_const(v[0])}
+        self.imports: dict = {}
+        for st in ast.walk(self.tree):
+            if isinstance(st, ast.ImportFrom):
+                parts = (st.module or "").split(".") if st.module else []
+                if st.level:
+                    base = rel.split("/")[:-1]
+                    base = base[:len(base) - (st.level - 1)]
+                    parts = base + parts
+                if parts and parts[0] == "pyxel":
+                    for a in st.names:
+                        self.imports.setdefault(a.asname or a.name, ("/".join(parts), a.name))
+
+    @classmethod
+    def get(cls, repo: Path, rel: str) -> "Mod":
+        key = (str(repo), rel)
+        if key not in cls._cache:
+            cls._cache[key] = Mod(repo, rel)
+        return cls._cache[key]
+
+    def find_function(self, name: str, depth: int = 0):
+        """(module, FunctionDef) for a module-level function of this module or one imported from the package."""
+        if name in self.funcs:
+            return self, self.funcs[name]
+        if name in self.imports and depth < 3:
+            path, orig = self.imports[name]
+            for rel in (path + ".py", path + "/__init__.py"):
+                if (self.repo / rel).exists():
+                    try:
+                        return Mod.get(self.repo, rel).find_function(orig, depth + 1)
+                    except TranslationError:
+                        return None
+        return None
+
+
+class Ev:
+    """A simple statement as the executor saw it: `node` has every local substituted, `conds` is the path
+    condition [(test, polarity, guard)] (guard = False for an enclosing test, else how the earlier branch left:
+    'raise' | 'return' | 'continue' | 'break' | 'mixed'), `ctx` the enclosing loops / try parts / helpers."""
+    __slots__ = ("kind", "node", "conds", "ctx", "orig")
+
+    def __init__(self, kind, node, conds, ctx, orig=None):
+        self.kind, self.node, self.conds, self.ctx, self.orig = kind, node, list(conds), tuple(ctx), orig
+        if isinstance(node, ast.AST):
+            ast.fix_missing_locations(node)
+
+    def in_ctx(self, what: str):
+        return [c for c in self.ctx if c[0] == what]
+
+    def src(self) -> str:
+        return ast.unparse(self.node)
+
+
+class _Frame:
+    def __init__(self, mod, cls, fn):
+        self.mod, self.cls, self.fn = mod, cls, fn
+        a = fn.args
+        self.params = [x.arg for x in a.posonlyargs + a.args + a.kwonlyargs] + \
+                      ([a.vararg.arg] if a.vararg else []) + ([a.kwarg.arg] if a.kwarg else [])
+        self.locals = set(self.params) | _stored_names(fn.body)
+        self.nested: dict = {}
+
+
+class _Subst(ast.NodeTransformer):
+    def __init__(self, env, frame, depth=0):
+        self.env, self.frame, self.blocked, self.depth = env, frame, [], depth
+
+    def visit_Name(self, n):
+        if not isinstance(n.ctx, ast.Load) or any(n.id in b for b in self.blocked):
+            return n
+        if n.id in self.env:
+            return copy.deepcopy(self.env[n.id])
+        fr = self.frame
+        if fr is not None and n.id not in fr.locals and n.id in fr.mod.consts and self.depth < 4:
+            sub = _Subst({}, _ModFrame(fr.mod), self.depth + 1)
+            return sub.visit(copy.deepcopy(fr.mod.consts[n.id]))
+        return n
+
+    def _scoped(self, n, bound):
+        self.blocked.append(bound)
+        try:
+            return self.generic_visit(n)
+        finally:
+            self.blocked.pop()
+
+    def _comp(self, n):
+        return self._scoped(n, _stored_names([g.target for g in n.generators]))
+
+    visit_ListComp = visit_SetComp = visit_GeneratorExp = visit_DictComp = _comp
+
+    def visit_Lambda(self, n):
+        a = n.args
+        return self._scoped(n, {x.arg for x in a.posonlyargs + a.args + a.kwonlyargs})
+
+
+class _ModFrame:
+    """Frame for resolving a module-level value: no locals."""
+    def __init__(self, mod):
+        self.mod, self.locals = mod, set()
+
+
+def _fold_fstrings(n: ast.AST) -> ast.AST:
+    """f"{'a'}b" == "ab": after substitution a JoinedStr part may be a literal."""
+    class F(ast.NodeTransformer):
+        def visit_JoinedStr(self, j):
+            self.generic_visit(j)
+            vals = []
+            for v in j.values:
+                if isinstance(v, ast.FormattedValue) and isinstance(v.value, ast.Constant) \
+                        and isinstance(v.value.value, str) and v.conversion == -1 and v.format_spec is None:
+                    v = ast.Constant(value=v.value.value)
+                if isinstance(v, ast.Constant) and vals and isinstance(vals[-1], ast.Constant):
+                    vals[-1] = ast.Constant(value=str(vals[-1].value) + str(v.value))
+                else:
+                    vals.append(v)
+            if len(vals) == 1 and isinstance(vals[0], ast.Constant):
+                return vals[0]
+            return ast.JoinedStr(values=vals)
+    return F().visit(n)
+
+
+def _is_logging(call: ast.Call) -> bool:
+    f = call.func
+    root = f
+    while isinstance(root, ast.Attribute):
+        root = root.value
+    if isinstance(root, ast.Call):                     # logging.getLogger(...).info(...)
+        return _is_logging(root)
+    if isinstance(root, ast.Name) and root.id in _LOG_ROOTS and isinstance(f, ast.Attribute):
+        return True
+    return isinstance(f, ast.Name) and f.id == "print"
+
+
+def _match_test(subject: ast.AST, case: ast.match_case):
+    """The test equivalent to one `case`; None for the wildcard."""
+    pat = case.pattern
+    test = None
+    if isinstance(pat, ast.MatchAs) and pat.pattern is None and pat.name is None:
+        test = None
+    elif isinstance(pat, ast.MatchValue):
+        test = ast.Compare(left=subject, ops=[ast.Eq()], comparators=[pat.value])
+    elif isinstance(pat, ast.MatchSingleton):
+        test = ast.Compare(left=subject, ops=[ast.Is()], comparators=[ast.Constant(value=pat.value)])
+    elif isinstance(pat, ast.MatchOr) and all(isinstance(a, ast.MatchValue) for a in pat.patterns):
+        test = ast.Compare(left=subject, ops=[ast.In()],
+                           comparators=[ast.Tuple(elts=[a.value for a in pat.patterns], ctx=ast.Load())])
+    else:
+        test = ast.Call(func=ast.Name(id="__match__", ctx=ast.Load()),
+                        args=[subject, ast.Constant(value=ast.unparse(pat))], keywords=[])
+    if case.guard is not None:
+        test = case.guard if test is None else ast.BoolOp(op=ast.And(), values=[test, case.guard])
+    return test
+
+
+class Sym:
+    """Symbolic reading of one function (see the comment at the top of this section)."""
+
+    MAX_DEPTH = 5
+
+    def __init__(self, mod: Mod, fn: ast.FunctionDef, cls: ast.ClassDef | None = None, follow=()):
+        self.events: list[Ev] = []
+        self.frames = [_Frame(mod, cls, fn)]
+        self.stack = [fn.name]
+        self.follow = set(follow)         # public helpers a row wants followed as well
+        self.inlined: list[str] = []
+        self.followed: set[str] = set()
+        self.visited: set[int] = set()
+        self.block(body_no_doc(fn), {}, [], ())
+
+    # ---- expressions
+    @property
+    def frame(self):
+        return self.frames[-1]
+
+    def subst(self, e, env):
+        if e is None:
+            return None
+        return _fold_fstrings(_Subst(env, self.frame).visit(copy.deepcopy(e)))
+
+    def emit(self, kind, node, conds, ctx, orig=None):
+        self.events.append(Ev(kind, node, conds, ctx, orig))
+        # a private helper called somewhere inside an expression (a comprehension element, an argument): its
+        # statements are read too, parameters unbound, so that rows looking for a kind of statement see them
+        if kind in ("continue", "break", "global"):
+            return
+        for c in [n for n in ast.walk(node) if isinstance(n, ast.Call)]:
+            hit = self.callee(c)
+            if hit is None or hit[2].name in self.stack or len(self.stack) >= self.MAX_DEPTH or id(hit[2]) in self.visited:
+                continue
+            mod, cls, fn, _ = hit
+            self.visited.add(id(fn))
+            self.followed.add(fn.name)
+            self.frames.append(_Frame(mod, cls, fn))
+            self.stack.append(fn.name)
+            try:
+                self.block(body_no_doc(fn), {}, list(conds), tuple(ctx) + (("called", fn.name),))
+            finally:
+                self.frames.pop()
+                self.stack.pop()
+
+    def value(self, e, env, conds, ctx):
+        s = self.subst(e, env)
+        if isinstance(s, ast.Call):
+            v = self.inline(s, conds, ctx, want_value=True)
+            if v is not None:
+                return v
+        return s
+
+    def test(self, e, env, conds, ctx):
+        """A condition; a private predicate helper called in it (`if _taken(p):`, `if not _free(p):`) is read in place."""
+        s = self.subst(e, env)
+        outer = self
+
+        class T(ast.NodeTransformer):
+            def visit_Call(self, c):
+                self.generic_visit(c)
+                v = outer.inline(c, conds, ctx, want_value=True)
+                return c if v is None else v
+
+            def visit_Lambda(self, n):
+                return n
+
+            visit_ListComp = visit_SetComp = visit_DictComp = visit_GeneratorExp = visit_Lambda
+        return T().visit(s) if any(isinstance(n, ast.Call) for n in ast.walk(s)) else s
+
+    # ---- helpers
+    def callee(self, call: ast.Call):
+        f = call.func
+        fr = self.frame
+        if isinstance(f, ast.Name):
+            if f.id in fr.nested:
+                return fr.mod, fr.cls, fr.nested[f.id], False
+            if f.id in fr.locals:
+                return None
+            if f.id.startswith("_") and not f.id.startswith("__") or f.id in self.follow:
+                hit = fr.mod.find_function(f.id)
+                if hit:
+                    return hit[0], None, hit[1], False
+        elif isinstance(f, ast.Attribute) and isinstance(f.value, ast.Name) and f.value.id in ("self", "cls") \
+                and fr.cls is not None and (f.attr.startswith("_") and not f.attr.startswith("__")
+                                            or f.attr in self.follow):
+            ms = [n for n in fr.cls.body if isinstance(n, ast.FunctionDef) and n.name == f.attr]
+            if len(ms) == 1 and not any(ast.unparse(d) in ("property", "cached_property", "functools.cached_property")
+                                        for d in ms[0].decorator_list):
+                static = any(ast.unparse(d) == "staticmethod" for d in ms[0].decorator_list)
+                return fr.mod, fr.cls, ms[0], not static
+        return None
+
+    def inline(self, call: ast.Call, conds, ctx, want_value: bool):
+        """Read the body of a private helper in place.  Returns the returned value (want_value), True (statement
+        inlined) or None (not a helper we follow)."""
+        hit = self.callee(call)
+        if hit is None:
+            return None
+        mod, cls, fn, bound = hit
+        if fn.name in self.stack or len(self.stack) >= self.MAX_DEPTH:
+            return None
+        a = fn.args
+        if a.vararg or a.kwarg or any(isinstance(x, ast.Starred) for x in call.args) \
+                or any(k.arg is None for k in call.keywords) or fn.decorator_list and not (
+                all(ast.unparse(d) in ("staticmethod", "classmethod") for d in fn.decorator_list)):
+            return None
+        if any(isinstance(n, (ast.Yield, ast.YieldFrom, ast.Await)) for n in ast.walk(fn)):
+            return None
+        pos = [x.arg for x in a.posonlyargs + a.args]
+        env2: dict = {}
+        if bound or (cls is not None and fn in cls.body and any(ast.unparse(d) == "classmethod" for d in fn.decorator_list)):
+            if not pos:
+                return None
+            env2[pos[0]] = ast.Name(id="self", ctx=ast.Load())
+            pos = pos[1:]
+        if len(call.args) > len(pos):
+            return None
+        for p, v in zip(pos, call.args):
+            env2[p] = v
+        names = pos + [x.arg for x in a.kwonlyargs]
+        for k in call.keywords:
+            if k.arg not in names or k.arg in env2:
+                return None
+            env2[k.arg] = k.value
+        defaults = dict(zip([x.arg for x in a.posonlyargs + a.args][-len(a.defaults):] if a.defaults else [], a.defaults))
+        defaults.update({x.arg: d for x, d in zip(a.kwonlyargs, a.kw_defaults) if d is not None})
+        for p in names:
+            if p not in env2:
+                if p not in defaults:
+                    return None
+                env2[p] = _Subst({}, _ModFrame(mod)).visit(copy.deepcopy(defaults[p]))
+        n0 = len(self.events)
+        base = len(conds)
+        self.frames.append(_Frame(mod, cls, fn))
+        self.stack.append(fn.name)
+        c2 = list(conds)
+        ictx = tuple(ctx) + (("inline", fn.name, len(self.stack)),)
+        try:
+            term = self.block(body_no_doc(fn), env2, c2, ictx)
+        finally:
+            self.frames.pop()
+            self.stack.pop()
+        mine = [e for e in self.events[n0:] if e.kind == "ireturn" and e.ctx[:len(ictx)] == ictx
+                and not any(c[0] == "inline" for c in e.ctx[len(ictx):])]
+        if want_value:
+            if any(c[0] in ("loop", "try", "except", "with") for e in mine for c in e.ctx[len(ictx):]) or term == "mixed":
+                del self.events[n0:]
+                return None
+            vals = [(e.node.value if e.node.value is not None else ast.Constant(value=None),
+                     [c for c in e.conds[base:] if not c[2]]) for e in mine]
+            if term is None:
+                vals.append((ast.Constant(value=None), []))
+            if not vals:
+                del self.events[n0:]
+                return None
+            out = vals[-1][0]
+            for v, cs in reversed(vals[:-1]):
+                tests = [t if pol else ast.UnaryOp(op=ast.Not(), operand=t) for t, pol, _ in cs]
+                if not tests:
+                    out = v
+                    continue
+                test = tests[0] if len(tests) == 1 else ast.BoolOp(op=ast.And(), values=tests)
+                out = ast.IfExp(test=test, body=v, orelse=out)
+        # a guard of the helper whose branch raised is a guard of the caller too
+        conds.extend(c for c in c2[base:] if c[2] == "raise")
+        self.inlined.append(fn.name)
+        self.followed.add(fn.name)
+        return out if want_value else True
+
+    # ---- statements
+    def block(self, stmts, env, conds, ctx):
+        for st in stmts:
+            term = self.stmt(st, env, conds, ctx)
+            if term:
+                return term
+        return None
+
+    def _invalidate(self, target: ast.AST, env):
+        """A store into an attribute / item: a substituted value that mentions it is no longer that expression."""
+        text = ast.unparse(target.value if isinstance(target, ast.Subscript) else target)
+        for k, v in list(env.items()):
+            if isinstance(v, ast.Name) and v.id == k:
+                continue                      # the object itself (a container that is being filled)
+            if text in ast.unparse(v):
+                env[k] = _opaque(k)
+
+    def stmt(self, st, env, conds, ctx):
+        inner = len(self.frames) > 1
+        if isinstance(st, (ast.Pass, ast.Import, ast.ImportFrom)):
+            return None
+        if isinstance(st, ast.FunctionDef):
+            self.frame.nested[st.name] = st
+            return None
+        if isinstance(st, ast.AnnAssign) and st.value is None:
+            return None
+        if isinstance(st, (ast.Assign, ast.AnnAssign)):
+            targets = [st.target] if isinstance(st, ast.AnnAssign) else st.targets
+            val = self.value(st.value, env, conds, ctx)
+            fresh = isinstance(val, (ast.Dict, ast.List, ast.Set)) and not (val.keys if isinstance(val, ast.Dict) else val.elts) \
+                or isinstance(val, ast.Call) and ast.unparse(val.func) in ("dict", "list", "set", "defaultdict", "OrderedDict",
+                                                                           "collections.defaultdict", "collections.OrderedDict")
+            for t in targets:
+                if isinstance(t, ast.Name):
+                    # an (empty) container that is filled later is an object, not a value: it keeps its name
+                    env[t.id] = ast.Name(id=t.id, ctx=ast.Load()) if fresh else val
+                else:
+                    for nm in _stored_names([t]):
+                        env[nm] = _opaque(nm)
+                    for sub in ast.walk(t):
+                        if isinstance(sub, (ast.Attribute, ast.Subscript)) and isinstance(sub.ctx, ast.Store):
+                            self._invalidate(sub, env)
+            tg = [t if isinstance(t, ast.Name) else self.subst(t, env) for t in targets]
+            self.emit("assign", ast.Assign(targets=tg, value=val, lineno=st.lineno), conds, ctx, st)
+            return None
+        if isinstance(st, ast.AugAssign):
+            val = self.subst(st.value, env)
+            if isinstance(st.target, ast.Name):
+                cur = env.get(st.target.id, ast.Name(id=st.target.id, ctx=ast.Load()))
+                env[st.target.id] = ast.BinOp(left=copy.deepcopy(cur), op=st.op, right=val)
+                self.emit("assign", ast.Assign(targets=[st.target], value=env[st.target.id], lineno=st.lineno), conds, ctx, st)
+            else:
+                self._invalidate(st.target, env)
+                self.emit("augstore", ast.AugAssign(target=self.subst(st.target, env), op=st.op, value=val), conds, ctx, st)
+            return None
+        if isinstance(st, ast.Expr):
+            if isinstance(st.value, ast.Constant):
+                return None
+            s = self.subst(st.value, env)
+            if isinstance(s, ast.Call):
+                if _is_logging(s):
+                    return None
+                if self.inline(s, conds, ctx, want_value=False):
+                    return None
+            self.emit("expr", ast.Expr(value=s), conds, ctx, st)
+            return None
+        if isinstance(st, ast.Return):
+            v = self.value(st.value, env, conds, ctx) if st.value is not None else None
+            self.emit("ireturn" if inner else "return", ast.Return(value=v), conds, ctx, st)
+            return "return"
+        if isinstance(st, ast.Raise):
+            self.emit("raise", ast.Raise(exc=self.subst(st.exc, env), cause=self.subst(st.cause, env)), conds, ctx, st)
+            return "raise"
+        if isinstance(st, ast.Continue):
+            self.emit("continue", st, conds, ctx, st)
+            return "continue"
+        if isinstance(st, ast.Break):
+            self.emit("break", st, conds, ctx, st)
+            return "break"
+        if isinstance(st, ast.If):
+            return self._if(self.test(st.test, env, conds, ctx), st.body, st.orelse, env, conds, ctx)
+        if isinstance(st, ast.Match):
+            subject = self.subst(st.subject, env)
+            chain: list = []                       # innermost first
+            orelse: list = []
+            cases = list(st.cases)
+            # build nested ifs from the last case backwards
+            for case in reversed(cases):
+                t = _match_test(subject, case)
+                if t is None:
+                    orelse = list(case.body)
+                else:
+                    orelse = [ast.If(test=t, body=list(case.body), orelse=orelse, lineno=st.lineno)]
+            return self.block(orelse, env, conds, ctx)
+        if isinstance(st, (ast.For, ast.While)):
+            assigned = _stored_names([st])
+            for v in assigned:
+                env[v] = _opaque(v)
+            envl = dict(env)
+            lctx = tuple(ctx) + (("loop", st),)
+            if isinstance(st, ast.For):
+                self.emit("for", ast.For(target=st.target, iter=self.value(st.iter, env, conds, ctx), body=[], orelse=[]), conds, ctx, st)
+                for v in _stored_names([st.target]):
+                    envl[v] = ast.Name(id=v, ctx=ast.Load())      # the element: bound, not loop-carried
+            else:
+                self.emit("while", ast.While(test=self.subst(st.test, envl), body=[], orelse=[]), conds, ctx, st)
+            self.block(st.body, envl, list(conds), lctx)
+            for v in assigned:
+                env[v] = _opaque(v)
+            if st.orelse:
+                self.block(st.orelse, env, conds, ctx)
+            forever = isinstance(st, ast.While) and isinstance(st.test, ast.Constant) and bool(st.test.value) \
+                and not any(isinstance(n, ast.Break) for n in ast.walk(st))
+            return "return" if forever else None
+        if isinstance(st, ast.Try):
+            env0 = dict(env)
+            saved = list(conds)
+            body_assigned = _stored_names(st.body)
+            tb = self.block(st.body, env, conds, tuple(ctx) + (("try", st),))
+            hterms = []
+            for h in st.handlers:
+                envh = dict(env0)
+                for v in body_assigned:
+                    envh[v] = _opaque(v)
+                if h.name:
+                    envh[h.name] = _opaque(h.name)
+                self.emit("except", ast.Expr(value=self.subst(h.type, env0) if h.type is not None
+                          else ast.Name(id="BaseException", ctx=ast.Load())), saved, tuple(ctx) + (("handler", h, st),), h)
+                hterms.append(self.block(h.body, envh, list(saved), tuple(ctx) + (("except", h, st),)))
+            to = None
+            if not tb and st.orelse:
+                to = self.block(st.orelse, env, conds, tuple(ctx) + (("tryelse", st),))
+            if not all(hterms):
+                conds[:] = saved
+                for v in body_assigned | _stored_names([h for h in st.handlers]):
+                    env[v] = _opaque(v)
+            tf = self.block(st.finalbody, env, conds, ctx) if st.finalbody else None
+            if tf:
+                return tf
+            if (tb or to) and all(hterms):
+                ts = {tb or to, *hterms}
+                return (tb or to) if len(ts) == 1 else "mixed"
+            return None
+        if isinstance(st, ast.With):
+            self.emit("with", ast.With(items=[ast.withitem(context_expr=self.subst(i.context_expr, env),
+                                                           optional_vars=i.optional_vars) for i in st.items], body=[]),
+                      conds, ctx, st)
+            for i in st.items:
+                if i.optional_vars is not None:
+                    for v in _stored_names([i.optional_vars]):
+                        env[v] = _opaque(v)
+            return self.block(st.body, env, conds, tuple(ctx) + (("with", st),))
+        if isinstance(st, (ast.Global, ast.Nonlocal)):
+            self.emit("global", st, conds, ctx, st)
+            return None
+        if isinstance(st, ast.Assert):
+            return None
+        if isinstance(st, ast.Delete):
+            for v in _stored_names([st]):
+                env[v] = _opaque(v)
+        self.emit("other", st, conds, ctx, st)
+        return None
+
+    def _if(self, t, body, orelse, env, conds, ctx):
+        c1, e1 = conds + [(t, True, False)], dict(env)
+        t1 = self.block(body, e1, c1, ctx)
+        c2, e2 = conds + [(t, False, False)], dict(env)
+        t2 = self.block(orelse, e2, c2, ctx)
+        n = len(conds)
+        if t1 and t2:
+            return t1 if t1 == t2 else "mixed"
+        if t1 or t2:
+            (cs, es, pol, how) = (c2, e2, False, t1) if t1 else (c1, e1, True, t2)
+            env.clear()
+            env.update(es)
+            conds.append((t, pol, how))
+            conds.extend(c for c in cs[n + 1:] if c[2])
+            return None
+        for k in set(e1) | set(e2):
+            v1 = e1.get(k, ast.Name(id=k, ctx=ast.Load()))
+            v2 = e2.get(k, ast.Name(id=k, ctx=ast.Load()))
+            env[k] = v1 if _dump(v1) == _dump(v2) else ast.IfExp(test=copy.deepcopy(t), body=v1, orelse=v2)
+        return None
+
+
+_NEG = {ast.IsNot: ast.Is, ast.NotEq: ast.Eq, ast.NotIn: ast.In}
+
+
+def literals(test: ast.AST, pol: bool = True) -> list[tuple[str, bool, ast.AST]]:
+    """Signed atoms of a condition known to be `pol`: [(canonical text, sign, node)]."""
+    if isinstance(test, ast.UnaryOp) and isinstance(test.op, ast.Not):
+        return literals(test.operand, not pol)
+    if isinstance(test, ast.BoolOp) and isinstance(test.op, ast.And if pol else ast.Or):
+        return [x for v in test.values for x in literals(v, pol)]
+    if isinstance(test, ast.Compare):
+        if len(test.ops) > 1:
+            if pol:
+                out, left = [], test.left
+                for op, right in zip(test.ops, test.comparators):
+                    out += literals(ast.Compare(left=left, ops=[op], comparators=[right]), True)
+                    left = right
+                return out
+        elif type(test.ops[0]) in _NEG:
+            pos = ast.Compare(left=test.left, ops=[_NEG[type(test.ops[0])]()], comparators=test.comparators)
+            return [(ast.unparse(pos), not pol, pos)]
+    return [(ast.unparse(test), pol, test)]
+
+
+def cond_literals(conds, guards: bool):
+    """Atoms of the enclosing tests (guards=False) or of the earlier guard clauses (guards=True)."""
+    return [x for t, pol, g in conds if bool(g) == guards for x in literals(t, pol)]
+
+
+def member_literals(conds):
+    """`x == "a"` / `x in ("a", "b")` atoms that hold on this path: [(subject text, {literals})]."""
+    out = []
+    for text, pol, node in cond_literals(conds, False):
+        if pol and isinstance(node, ast.Compare) and len(node.ops) == 1:
+            op, rhs = node.ops[0], node.comparators[0]
+            if isinstance(op, ast.Eq) and isinstance(rhs, ast.Constant):
+                out.append((ast.unparse(node.left), {rhs.value}))
+            elif isinstance(op, ast.Eq) and isinstance(node.left, ast.Constant):
+                out.append((ast.unparse(rhs), {node.left.value}))
+            elif isinstance(op, ast.In) and isinstance(rhs, (ast.Tuple, ast.List, ast.Set)) \
+                    and all(isinstance(e, ast.Constant) for e in rhs.elts):
+                out.append((ast.unparse(node.left), {e.value for e in rhs.elts}))
+            elif isinstance(op, ast.In) and isinstance(rhs, ast.Dict) and rhs.keys \
+                    and all(isinstance(e, ast.Constant) for e in rhs.keys):
+                out.append((ast.unparse(node.left), {e.value for e in rhs.keys}))
+    return out
+
+
+def calls_in(node: ast.AST, attr: str | None = None, name: str | None = None):
+    out = []
+    for n in ast.walk(node):
+        if isinstance(n, ast.Call):
+            if attr is not None and isinstance(n.func, ast.Attribute) and n.func.attr == attr:
+                out.append(n)
+            elif name is not None and (isinstance(n.func, ast.Name) and n.func.id == name
+                                       or isinstance(n.func, ast.Attribute) and n.func.attr == name):
+                out.append(n)
+    return out
+
+
+def sites(sym: "Sym", attr: str | None = None, name: str | None = None, kinds=None):
+    """Distinct calls in the statements of a function.  A substituted value is repeated in every statement that
+    uses the local it was bound to: a call is counted once, with the first statement it occurs in."""
+    out, seen = [], set()
+    for ev in sym.events:
+        if kinds is not None and ev.kind not in kinds:
+            continue
+        for c in calls_in(ev.node, attr=attr, name=name):
+            d = _dump(c)
+            if d not in seen:
+                seen.add(d)
+                out.append((ev, c))
+    return out
+
+
+def read(repo: Path, rel: str, name: str, cls: str | None = None, follow=()) -> Sym:
+    mod = Mod.get(repo, rel)
+    if cls is None:
+        if name not in mod.funcs:
+            raise TranslationError(f"{rel}: function {name} not found")
+        return Sym(mod, mod.funcs[name], None, follow)
+    if cls not in mod.classes:
+        raise TranslationError(f"{rel}: class {cls} not found")
+    ms = [n for n in mod.classes[cls].body if isinstance(n, ast.FunctionDef) and n.name == name]
+    if len(ms) != 1:
+        raise TranslationError(f"{rel}: method {cls}.{name}: found {len(ms)}")
+    return Sym(mod, ms[0], mod.classes[cls], follow)
+
+
+def bind_call(call: ast.Call, fn: ast.FunctionDef) -> dict:
+    """Arguments of `call` by parameter name of `fn` (positional or keyword)."""
+    a = fn.args
+    pos = [x.arg for x in a.posonlyargs + a.args]
+    if any(isinstance(x, ast.Starred) for x in call.args) or any(k.arg is None for k in call.keywords) \
+            or len(call.args) > len(pos):
+        fail(call, "call with * / ** arguments")
+    out = dict(zip(pos, call.args))
+    for k in call.keywords:
+        out[k.arg] = k.value
+    return out
+
+
+# ------------------------------------------------------------------------------------------ rows
+
+OUT, UTL = "pyxel/outputs/outputs.py", "pyxel/outputs/utils.py"
+WRITE_ATTRS = ("save", "savetxt", "writeto", "to_csv", "File", "write_bytes", "write_text", "tofile")
 
 
 def _is_name(n, ident):
     return isinstance(n, ast.Name) and n.id == ident
 
 
+def _bool_const(n):
+    return n.value if isinstance(n, ast.Constant) and isinstance(n.value, bool) else None
+
+
+def _exc_names(t: ast.AST) -> list[str]:
+    if isinstance(t, ast.Tuple):
+        return [x for e in t.elts for x in _exc_names(e)]
+    if isinstance(t, ast.Call):
+        t = t.func
+    if isinstance(t, ast.Name):
+        return [t.id]
+    if isinstance(t, ast.Attribute):
+        return [t.attr]
+    return ["?"]
+
+
+def _unbounded(loop) -> bool:
+    if isinstance(loop, ast.While):
+        return isinstance(loop.test, ast.Constant) and bool(loop.test.value) and not loop.orelse
+    return isinstance(loop.iter, ast.Call) and ast.unparse(loop.iter.func) in ("itertools.count", "count")
+
+
 def mkdir_loop(repo: Path) -> bool:
-    tree = parse(repo, "pyxel/outputs/outputs.py")
-    fn = find_func(tree, "create_output_directory")
-    body = body_no_doc(fn)
-    inits = {}
-    for st in body:
-        if isinstance(st, ast.Assign) and len(st.targets) == 1 and isinstance(st.targets[0], ast.Name) \
-                and isinstance(st.value, ast.Constant):
-            inits[st.targets[0].id] = st.value.value
-    if inits.get("add", None) != "" or inits.get("count", None) != 0 or isinstance(inits.get("count"), bool):
-        fail(fn, 'create_output_directory must start with add = "" and count = 0')
-    loops = [st for st in body if isinstance(st, ast.While)]
-    if len(loops) != 1 or body[-1] is not loops[0]:
-        fail(fn, "create_output_directory must end with exactly one while loop")
-    loop = loops[0]
-    if not (isinstance(loop.test, ast.Constant) and loop.test.value is True) or loop.orelse:
-        fail(loop, "retry loop must be `while True`")
-    if len(loop.body) != 1 or not isinstance(loop.body[0], ast.Try):
-        fail(loop, "retry loop body must be a single try statement")
-    tr = loop.body[0]
-    if tr.finalbody:
-        fail(tr, "no finally expected")
-    # try body: assignment of the directory from an f-string ending in {add}; then <dir>.mkdir(...)
-    if len(tr.body) != 2 or not isinstance(tr.body[0], (ast.Assign, ast.AnnAssign)):
-        fail(tr, "try body must be `<dir> = ...; <dir>.mkdir(...)`")
-    tgt = tr.body[0].target if isinstance(tr.body[0], ast.AnnAssign) else tr.body[0].targets[0]
-    if not isinstance(tgt, ast.Name):
-        fail(tr.body[0], "directory variable")
-    dvar = tgt.id
-    fstrs = [n for n in ast.walk(tr.body[0].value) if isinstance(n, ast.JoinedStr)]
-    if len(fstrs) != 1:
-        fail(tr.body[0], "directory name must be built from one f-string")
-    parts = fstrs[0].values
-    if not (len(parts) == 3 and all(isinstance(p, ast.FormattedValue) and isinstance(p.value, ast.Name) for p in parts)
-            and [p.value.id for p in parts] == ["prefix_dir", "date_str", "add"]):
-        fail(fstrs[0], 'directory name must be f"{prefix_dir}{date_str}{add}"')
-    call = tr.body[1]
-    if not (isinstance(call, ast.Expr) and isinstance(call.value, ast.Call) and isinstance(call.value.func, ast.Attribute)
-            and call.value.func.attr == "mkdir" and _is_name(call.value.func.value, dvar) and not call.value.args):
-        fail(call, "second statement of the try body must be <dir>.mkdir(...)")
-    kws = {k.arg: k.value for k in call.value.keywords}
+    """src_mkdir_exclusive.  Needed by the theorems: is the directory made by ONE mkdir that refuses an existing
+    name, inside a retry that goes on (does not return / give up) when it is refused.  The candidate names
+    themselves are the model's `cand`; the correspondence compares them and the number of failed attempts."""
+    sym = read(repo, OUT, "create_output_directory")
+    fn = sym.frames[0].fn
+    made = sites(sym, attr="mkdir") + sites(sym, name="makedirs")
+    if len(made) != 1:
+        fail(fn, f"create_output_directory must create the directory at exactly one mkdir call, found {len(made)}")
+    ev, call = made[0]
+    if isinstance(call.func, ast.Attribute) and call.func.attr == "makedirs" or call.args:
+        fail(call, "the directory must be made by <path>.mkdir(<keywords>)")
+    kws = {k.arg: k.value for k in call.keywords}
     if set(kws) - {"parents", "exist_ok", "mode"}:
         fail(call, "unexpected mkdir keyword")
     excl = True
     if "exist_ok" in kws:
-        v = kws["exist_ok"]
-        if not (isinstance(v, ast.Constant) and isinstance(v.value, bool)):
-            fail(call, "exist_ok must be a bool literal")
-        excl = not v.value
-    # handler
-    if len(tr.handlers) != 1 or not _is_name(tr.handlers[0].type, "FileExistsError"):
-        fail(tr, "exactly one handler `except FileExistsError` expected")
-    hb = tr.handlers[0].body
-    ok = (len(hb) == 3
-          and isinstance(hb[0], ast.AugAssign) and _is_name(hb[0].target, "count") and isinstance(hb[0].op, ast.Add)
-          and isinstance(hb[0].value, ast.Constant) and hb[0].value.value == 1
-          and isinstance(hb[1], ast.Assign) and len(hb[1].targets) == 1 and _is_name(hb[1].targets[0], "add")
-          and ast.unparse(hb[1].value) in ("'_' + str(count)", '"_" + str(count)', "f'_{count}'")
-          and isinstance(hb[2], ast.Continue))
-    if not ok:
-        fail(tr.handlers[0], 'handler must be `count += 1; add = "_" + str(count); continue`')
-    if not (len(tr.orelse) == 1 and isinstance(tr.orelse[0], ast.Return) and _is_name(tr.orelse[0].value, dvar)):
-        fail(tr, "else branch must return the created directory")
+        v = _bool_const(kws["exist_ok"])
+        if v is None:
+            fail(call, "exist_ok must be a constant")
+        excl = not v
+    # the refusal must lead to another attempt: mkdir inside `try` whose FileExistsError handler neither returns,
+    # breaks nor raises, inside an unbounded loop; nothing on the path decides by looking first (`exists()`)
+    tries = ev.in_ctx("try")
+    loops = ev.in_ctx("loop")
+    if not tries or not loops:
+        fail(ev.orig, "mkdir must be attempted inside try, inside the retry loop")
+    tr, loop = tries[-1][1], loops[-1][1]
+    if not _unbounded(loop):
+        fail(loop, "the retry loop must be unbounded (`while True` / `for .. in itertools.count()`)")
+    hs = [e for e in sym.events if e.kind == "except" and e.ctx[-1][2] is tr]
+    fe = [e for e in hs if "FileExistsError" in _exc_names(e.node.value)]
+    if len(fe) != 1 or any(set(_exc_names(e.node.value)) & {"OSError", "Exception", "BaseException", "?"} for e in hs):
+        fail(tr, "exactly one handler for FileExistsError (and no broader one) expected around mkdir")
+    h = fe[0].ctx[-1][1]
+    inside = [e for e in sym.events if any(c[0] == "except" and c[1] is h for c in e.ctx)]
+    if any(e.kind in ("return", "break", "raise") for e in inside):
+        fail(h, "a refused mkdir must lead to the next attempt")
+    for e in sym.events:
+        for t, _, _ in e.conds:
+            if any(isinstance(n, ast.Call) and isinstance(n.func, ast.Attribute)
+                   and n.func.attr in ("exists", "is_dir", "is_file") for n in ast.walk(t)):
+                fail(t, "create_output_directory decides by looking at the file system before mkdir")
+    # what is returned is the directory just made
+    rets = [e for e in sym.events if e.kind == "return"]
+    recv = _dump(call.func.value)
+    good = [e for e in rets if e.node.value is not None and _dump(e.node.value) == recv
+            and any(c[1] is loop for c in e.in_ctx("loop"))]
+    if len(good) != 1 or len([e for e in rets if any(c[1] is loop for c in e.in_ctx("loop"))]) != 1:
+        fail(fn, "the loop must return exactly the directory that mkdir made")
     return excl
 
 
 # ------------------------------------------------------------------------------------------ writers
 
 
-def _has_exists_call(test: ast.AST) -> bool:
-    return any(isinstance(n, ast.Call) and isinstance(n.func, ast.Attribute) and n.func.attr == "exists"
-               for n in ast.walk(test))
+def _has_exists(n: ast.AST) -> bool:
+    return bool(calls_in(n, attr="exists"))
 
 
-def writer_behaviour(fn: ast.FunctionDef) -> str:
-    """Raise | Skip | Overwrite for one writer."""
-    tests = [st for st in ast.walk(fn) if isinstance(st, ast.If) and _has_exists_call(st.test)]
-    if len(tests) > 1:
+def writer_behaviour(sym: Sym) -> tuple[str, bool]:
+    """(Raise | Skip | Overwrite, is the test disabled by `overwrite`) for one writer.
+
+    Looked for: the statement(s) reached exactly when the target `exists()` - possibly `and not overwrite` - that
+    raise FileExistsError (Raise) or leave by a bare return (Skip), before anything is written.  How the test is
+    spelt (nested ifs, inverted with the write in the else branch, in a private helper, through an alias of the
+    path) does not matter; a test that also depends on anything else does (fail closed)."""
+    fn = sym.frames[0].fn
+    refusals, first_write = [], None
+    for i, ev in enumerate(sym.events):
+        # deciding atoms: enclosing tests, and earlier exits other than a raise (a raise before the test writes nothing)
+        pos = [x for t, pol, g in ev.conds if g != "raise" or _has_exists(t) for x in literals(t, pol)]
+        ex = [x for x in pos if _has_exists(x[2])]
+        if ev.kind in ("raise", "return") and any(pol and isinstance(n, ast.Call) and isinstance(n.func, ast.Attribute)
+                                                  and n.func.attr == "exists" for _, pol, n in ex):
+            refusals.append((i, ev, pos, ex))
+        elif ev.kind in ("expr", "assign", "with", "return", "ireturn") and first_write is None \
+                and any(isinstance(n, ast.Call) and isinstance(n.func, ast.Attribute) and n.func.attr in WRITE_ATTRS
+                        for n in ast.walk(ev.node)):
+            first_write = (i, ev)
+    if any(_has_exists(t) for ev in sym.events for t, _, _ in ev.conds) and not refusals:
+        fail(fn, "an existence test that is not a refusal")
+    if len(refusals) > 1:
         fail(fn, "more than one existence test")
-    if tests:
-        st = tests[0]
-        if st not in fn.body:
-            fail(st, "existence test must be a top-level statement of the writer")
-        t = st.test
-        plain = isinstance(t, ast.Call)
-        guarded = (isinstance(t, ast.BoolOp) and isinstance(t.op, ast.And) and len(t.values) == 2
-                   and isinstance(t.values[0], ast.Call)
-                   and ast.unparse(t.values[1]) == "not overwrite")
-        if not (plain or guarded) or st.orelse:
-            fail(t, "existence test must be `<p>.exists()` or `<p>.exists() and not overwrite`")
-        # the test must come before anything that writes
-        idx = fn.body.index(st)
-        for later in fn.body[:idx]:
-            for n in ast.walk(later):
-                if isinstance(n, ast.Call) and isinstance(n.func, ast.Attribute) and n.func.attr in (
-                        "save", "savetxt", "writeto", "to_csv", "File"):
-                    fail(later, "a write precedes the existence test")
-        last = st.body[-1]
-        if isinstance(last, ast.Raise):
-            exc = last.exc
-            nm = exc.func.id if isinstance(exc, ast.Call) and isinstance(exc.func, ast.Name) else \
-                exc.id if isinstance(exc, ast.Name) else None
-            if nm != "FileExistsError":
-                fail(last, "existence test must raise FileExistsError")
-            return "Raise"
-        if isinstance(last, ast.Return) and last.value is None:
-            return "Skip"
-        fail(st, "existence test must end with raise FileExistsError or a bare return")
+    if refusals:
+        i, ev, pos, ex = refusals[0]
+        if first_write is not None and first_write[0] < i:
+            fail(first_write[1].orig, "a write precedes the existence test")
+        if len(ex) != 1 or not ex[0][1] or not (isinstance(ex[0][2], ast.Call) and not ex[0][2].args):
+            fail(ev.orig, "existence test must be `<p>.exists()`")
+        rest = [(txt, pol) for txt, pol, node in pos if not _has_exists(node)]
+        if rest not in ([], [("overwrite", False)]):
+            fail(ev.orig, f"the refusal of an existing target also depends on {rest}")
+        if ev.in_ctx("loop") or ev.in_ctx("except"):
+            fail(ev.orig, "existence test inside a loop / handler")
+        if ev.kind == "raise":
+            if "FileExistsError" not in _exc_names(ev.node.exc) if ev.node.exc is not None else True:
+                fail(ev.orig, "existence test must raise FileExistsError")
+            return "Raise", bool(rest)
+        if ev.node.value is None or isinstance(ev.node.value, ast.Constant) and ev.node.value.value is None:
+            if ev.kind == "return":
+                return "Skip", bool(rest)
+        fail(ev.orig, "existence test must end with raise FileExistsError or a bare return")
     # no explicit test: astropy's writeto(overwrite=False) refuses existing files
-    wt = [n for n in ast.walk(fn) if isinstance(n, ast.Call) and isinstance(n.func, ast.Attribute)
-          and n.func.attr == "writeto"]
+    wt = [c for _, c in sites(sym, attr="writeto")]
     if wt:
         if len(wt) != 1:
             fail(fn, "more than one writeto call")
         kw = {k.arg: k.value for k in wt[0].keywords}
         if "overwrite" not in kw:
-            return "Raise"          # astropy default: overwrite=False
-        v = kw["overwrite"]
-        if isinstance(v, ast.Constant) and isinstance(v.value, bool):
-            return "Overwrite" if v.value else "Raise"
-        fail(wt[0], "writeto(overwrite=...) must be a bool literal when there is no existence test")
-    return "Overwrite"
+            return "Raise", False          # astropy default: overwrite=False
+        v = _bool_const(kw["overwrite"])
+        if v is None:
+            fail(wt[0], "writeto(overwrite=...) must be a constant when there is no existence test")
+        return ("Overwrite" if v else "Raise"), False
+    return "Overwrite", False
 
 
-def _guarded_by_overwrite(fn: ast.FunctionDef) -> bool:
-    tests = [st for st in fn.body if isinstance(st, ast.If) and _has_exists_call(st.test)]
-    return bool(tests) and isinstance(tests[0].test, ast.BoolOp)
-
-
-def old_ext(fn: ast.FunctionDef) -> str:
+def old_ext(sym: Sym) -> str:
     exts = set()
-    for n in ast.walk(fn):
-        if isinstance(n, ast.JoinedStr) and n.values and isinstance(n.values[-1], ast.Constant):
-            m = re.fullmatch(r"_\?\.(\w+)", str(n.values[-1].value))
-            if m:
-                exts.add(m.group(1))
+    for ev in sym.events:
+        for n in ast.walk(ev.node):
+            if isinstance(n, ast.Constant) and isinstance(n.value, str):
+                m = re.search(r"_\?\.(\w+)$", n.value)
+                if m:
+                    exts.add(m.group(1))
     if len(exts) != 1:
-        fail(fn, f"expected exactly one template f\"{{name}}_?.<ext>\", found {sorted(exts)}")
+        fail(sym.frames[0].fn, f"expected exactly one template \"<name>_?.<ext>\", found {sorted(exts)}")
     return exts.pop()
 
 
-def new_dispatch(fn: ast.FunctionDef):
-    ms = [n for n in ast.walk(fn) if isinstance(n, ast.Match)]
-    if len(ms) != 1 or not _is_name(ms[0].subject, "extension"):
-        fail(fn, "save_to_files must contain exactly one `match extension`")
-    table = []
-    for case in ms[0].cases:
-        pat = case.pattern
-        if isinstance(pat, ast.MatchAs) and pat.pattern is None:
-            if not isinstance(case.body[0], ast.Raise):
-                fail(case.body[0], "default case must raise")
+def new_dispatch(repo: Path):
+    """save_to_files: which writer (or refusal) each format gets - `match`, if/elif on ==/in, any nesting."""
+    sym = read(repo, UTL, "save_to_files")
+    fn = sym.frames[0].fn
+    mod = Mod.get(repo, UTL)
+    table, subjects = {}, set()
+    for ev in sym.events:
+        mem = [(s, vals) for s, vals in member_literals(ev.conds) if vals & set(FMT)]
+        what = None
+        if ev.kind == "expr" and isinstance(ev.node.value, ast.Call) and isinstance(ev.node.value.func, ast.Name) \
+                and ev.node.value.func.id in NEW_WRITERS:
+            call = ev.node.value
+            what = call.func.id
+            args = bind_call(call, mod.funcs[what]) if what in mod.funcs else {k.arg: k.value for k in call.keywords}
+            if not _is_name(args.get("overwrite"), "overwrite"):
+                fail(ev.orig, "writer must be called with the `overwrite` of save_to_files")
+            if not isinstance(args.get("filename"), ast.AST):
+                fail(ev.orig, "writer must be called with a file name")
+        elif ev.kind == "expr" and isinstance(ev.node.value, ast.Call) and isinstance(ev.node.value.func, ast.Subscript) \
+                and isinstance(ev.node.value.func.value, ast.Dict) and ev.node.value.func.value.keys \
+                and all(isinstance(k, ast.Constant) and k.value in FMT for k in ev.node.value.func.value.keys) \
+                and all(isinstance(v, ast.Name) and v.id in NEW_WRITERS for v in ev.node.value.func.value.values):
+            # dispatch dict built inside the function: {"npy": write_to_npy, ...}[<subject>](...)
+            call, d = ev.node.value, ev.node.value.func.value
+            subj = ast.unparse(call.func.slice)
+            keys = {k.value for k in d.keys}
+            if len(mem) != 1 or mem[0][0] != subj or not mem[0][1] <= keys:
+                fail(ev.orig, "a dispatch dict must be indexed by the tested extension, under `<extension> in <dict>`")
+            subjects.add(subj)
+            for k, v in zip(d.keys, d.values):
+                if k.value not in mem[0][1]:
+                    continue
+                args = bind_call(call, mod.funcs[v.id]) if v.id in mod.funcs else {x.arg: x.value for x in call.keywords}
+                if not _is_name(args.get("overwrite"), "overwrite") or not isinstance(args.get("filename"), ast.AST):
+                    fail(ev.orig, "writer must be called with a file name and the `overwrite` of save_to_files")
+                if k.value in table:
+                    fail(fn, "a format appears in two cases")
+                table[k.value] = v.id
             continue
-        alts = pat.patterns if isinstance(pat, ast.MatchOr) else [pat]
-        keys = []
-        for a in alts:
-            if not (isinstance(a, ast.MatchValue) and isinstance(a.value, ast.Constant) and a.value.value in FMT):
-                fail(case.body[0], "case pattern must be a known format literal")
-            keys.append(a.value.value)
-        if case.guard is not None or len(case.body) != 1:
-            fail(case.body[0], "case body must be one statement")
-        st = case.body[0]
-        if isinstance(st, ast.Raise):
-            w = None
-        elif isinstance(st, ast.Expr) and isinstance(st.value, ast.Call) and isinstance(st.value.func, ast.Name) \
-                and st.value.func.id in NEW_WRITERS:
-            w = st.value.func.id
-            kw = {k.arg: k.value for k in st.value.keywords}
-            if not ("overwrite" in kw and _is_name(kw["overwrite"], "overwrite")):
-                fail(st, "writer must be called with overwrite=overwrite")
-            if not ("filename" in kw and _is_name(kw["filename"], "full_filename")):
-                fail(st, "writer must be called with filename=full_filename")
+        elif ev.kind == "raise" and mem:
+            what = None
+        elif ev.kind == "assign" and isinstance(ev.node.value, ast.Dict) \
+                and all(isinstance(v, ast.Name) for v in ev.node.value.values):
+            continue                       # the dispatch dict itself; its use is read where it is indexed
+        elif any(isinstance(n, ast.Name) and n.id in NEW_WRITERS for n in ast.walk(ev.node)):
+            fail(ev.orig, "a write_to_* writer is used other than by a plain call")
         else:
-            fail(st, "case must call a write_to_* writer or raise")
-        for k in keys:
-            table.append((k, w))
-    seen = [k for k, _ in table]
-    if len(set(seen)) != len(seen):
-        fail(fn, "a format appears in two cases")
-    return table
+            continue
+        if what is not None and len(mem) != 1:
+            fail(ev.orig, "a writer call must be selected by exactly one test of the extension")
+        for s, vals in mem[:1]:
+            if not vals <= set(FMT):
+                fail(ev.orig, "case pattern must be a known format literal")
+            subjects.add(s)
+            for k in sorted(vals):
+                if k in table:
+                    fail(fn, "a format appears in two cases")
+                table[k] = what
+    if len(subjects) != 1:
+        fail(fn, f"save_to_files must dispatch on one extension expression, found {sorted(subjects)}")
+    # formats not named by any case fall to the default, which must refuse
+    if set(table) != set(FMT):
+        default = [ev for ev in sym.events if ev.kind == "raise" and not member_literals(ev.conds)
+                   and any(not pol and s_txt.startswith(next(iter(subjects)))
+                           for s_txt, pol, _ in cond_literals(ev.conds, False))]
+        if not default:
+            fail(fn, f"formats {sorted(set(FMT) - set(table))} are not dispatched and there is no refusing default")
+        for k in FMT:
+            table.setdefault(k, None)          # refused by the default branch == refused by a case of its own
+    order = ["fits", "npy", "hdf", "txt", "csv", "png", "jpg", "jpeg"]
+    return [(k, table[k]) for k in order if k in table]
 
 
-def new_overwrite(repo: Path, utils_tree) -> bool:
+def new_overwrite(repo: Path) -> bool:
     """True if the new-API writers may be called with overwrite=True."""
-    fn = find_func(utils_tree, "save_to_files")
-    names = [a.arg for a in fn.args.args]
-    if "overwrite" not in names:
+    mod = Mod.get(repo, UTL)
+    fn = mod.funcs.get("save_to_files") or fail(None, "save_to_files not found")
+    names = [a.arg for a in fn.args.posonlyargs + fn.args.args]
+    kwd = dict(zip([a.arg for a in fn.args.kwonlyargs], fn.args.kw_defaults))
+    if "overwrite" not in names and "overwrite" not in kwd:
         fail(fn, "save_to_files has no `overwrite` parameter")
     defaults = dict(zip(names[len(names) - len(fn.args.defaults):], fn.args.defaults))
+    defaults.update(kwd)
     d = defaults.get("overwrite")
-    if not (isinstance(d, ast.Constant) and isinstance(d.value, bool)):
-        fail(fn, "save_to_files: `overwrite` must default to a bool literal")
-    ow = d.value
-    ex = parse(repo, "pyxel/exposure/exposure.py")
-    calls = [n for n in ast.walk(ex) if isinstance(n, ast.Call) and _is_name(n.func, "save_to_files")]
+    ow = _bool_const(_Subst({}, _ModFrame(mod)).visit(copy.deepcopy(d))) if d is not None else None
+    if ow is None:
+        fail(fn, "save_to_files: `overwrite` must default to a bool constant")
+    exm = Mod.get(repo, "pyxel/exposure/exposure.py")
+    # every function / method of exposure.py is a root; a private helper is read where it is called (arguments bound)
+    roots = [(None, f) for f in exm.funcs.values()] + [(c, m) for c in exm.classes.values() for m in c.body
+                                                        if isinstance(m, ast.FunctionDef)]
+    syms = [(f, Sym(exm, f, c)) for c, f in roots
+            if any(isinstance(n, ast.Call) for n in ast.walk(f))]
+    followed = set().union(*[sy.followed for _, sy in syms]) if syms else set()
+    calls, seen = [], set()
+    for f, sy in syms:
+        if f.name in followed:
+            continue
+        for _, c in sites(sy, name="save_to_files"):
+            if _dump(c) not in seen:
+                seen.add(_dump(c))
+                calls.append(c)
     if len(calls) != 1:
-        fail(ex, f"expected one save_to_files call in exposure.py, found {len(calls)}")
-    kw = {k.arg: k.value for k in calls[0].keywords}
-    if "overwrite" in kw:
-        v = kw["overwrite"]
-        if not (isinstance(v, ast.Constant) and isinstance(v.value, bool)):
-            fail(calls[0], "save_to_files(overwrite=...) must be a bool literal")
-        ow = v.value
-    if calls[0].args:
-        fail(calls[0], "save_to_files must be called with keywords")
+        fail(exm.tree, f"expected one save_to_files call in exposure.py, found {len(calls)}")
+    args = bind_call(calls[0], fn)
+    if "overwrite" in args:
+        v = _bool_const(args["overwrite"])
+        if v is None:
+            fail(calls[0], "save_to_files(overwrite=...) must be a bool constant")
+        ow = v
     return ow
 
 
-def old_dispatch(repo: Path):
-    tree = parse(repo, "pyxel/outputs/outputs.py")
-    fn = find_func(tree, "save_to_file", cls="Outputs")
-    dicts = [st for st in fn.body if isinstance(st, (ast.Assign, ast.AnnAssign))
-             and isinstance(st.value, ast.Dict)
-             and _is_name(st.target if isinstance(st, ast.AnnAssign) else st.targets[0], "save_methods")]
-    if len(dicts) != 1:
-        fail(fn, "Outputs.save_to_file must define save_methods once")
-    table = []
-    for k, v in zip(dicts[0].value.keys, dicts[0].value.values):
-        if not (isinstance(k, ast.Constant) and k.value in FMT and isinstance(v, ast.Name) and v.id in OLD_WRITERS):
-            fail(dicts[0], "save_methods must map format literals to to_* writers")
-        table.append((k.value, v.id))
+def old_dispatch(repo: Path, sym: Sym):
+    """The format -> to_* table Outputs.save_to_file indexes (a dict display, wherever it is bound)."""
+    mod = Mod.get(repo, OUT)
+    fn = sym.frames[0].fn
+    cands = {}
+    pool = [ev.node for ev in sym.events] + list(mod.consts.values())
+    for root in pool:
+        for n in ast.walk(root):
+            if isinstance(n, ast.Dict) and n.keys and all(isinstance(k, ast.Constant) and k.value in FMT for k in n.keys) \
+                    and all(isinstance(v, ast.Name) and v.id in OLD_WRITERS for v in n.values):
+                cands[_dump(n)] = n
+    if len(cands) != 1:
+        fail(fn, f"Outputs.save_to_file must use one format -> to_* table, found {len(cands)}")
+    d = next(iter(cands.values()))
+    table = [(k.value, v.id) for k, v in zip(d.keys, d.values)]
     if sorted(k for k, _ in table) != sorted(FMT):
-        fail(dicts[0], "save_methods must cover exactly the eight formats")
-    # the import must bind these names to pyxel.outputs.utils
-    imp = [n for n in tree.body if isinstance(n, ast.ImportFrom) and n.module == "pyxel.outputs.utils"]
-    bound = {a.asname or a.name for n in imp for a in n.names}
+        fail(d, "the table must cover exactly the eight formats")
+    # the function must index it by the format it is saving
+    used = [n for ev in sym.events for n in ast.walk(ev.node)
+            if (isinstance(n, ast.Subscript) and _dump(n.value) in cands)
+            or (isinstance(n, ast.Call) and isinstance(n.func, ast.Attribute) and n.func.attr == "get"
+                and _dump(n.func.value) in cands)]
+    if not used:
+        fail(fn, "the format -> to_* table is not indexed in Outputs.save_to_file")
     for _, w in table:
-        if w not in bound:
+        hit = mod.imports.get(w)
+        if not hit or hit != ("pyxel/outputs/utils", w) and hit != ("pyxel/outputs", w):
             fail(fn, f"{w} is not imported from pyxel.outputs.utils")
     return table
 
@@ -273,129 +1051,167 @@ def old_dispatch(repo: Path):
 # ------------------------------------------------------------------------------------------ state / flow shape
 
 
-def _self_attrs(fn: ast.FunctionDef) -> set[str]:
-    return {n.attr for n in ast.walk(fn) if isinstance(n, ast.Attribute) and _is_name(n.value, "self")}
+def _iter_sources(sym: Sym) -> list[str]:
+    """Everything the function iterates over (for statements and comprehensions), substituted."""
+    out = [ast.unparse(ev.node.iter) for ev in sym.events if ev.kind == "for"]
+    for ev in sym.events:
+        for n in ast.walk(ev.node):
+            if isinstance(n, ast.comprehension):
+                out.append(ast.unparse(n.iter))
+    return out
+
+
+def _self_attrs(sym: Sym) -> set[str]:
+    out = set()
+    for ev in sym.events:
+        for root in [ev.node] + [t for t, _, _ in ev.conds]:
+            for n in ast.walk(root):
+                if isinstance(n, ast.Attribute) and _is_name(n.value, "self") and n.attr not in sym.followed:
+                    out.add(n.attr)
+                if isinstance(n, ast.Call) and isinstance(n.func, ast.Name) and n.func.id in ("getattr", "setattr", "vars"):
+                    out.add("<" + n.func.id + ">")
+    return out
 
 
 def check_build_filenames(repo: Path) -> None:
-    """build_filenames must be a pure function of self.save_data_to_file and its argument."""
-    tree = parse(repo, "pyxel/outputs/outputs.py")
-    fn = find_func(tree, "build_filenames", cls="Outputs")
-    attrs = _self_attrs(fn)
+    """build_filenames must be a pure function of self.save_data_to_file and its argument (private helper
+    methods are read in place: one that remembers something in another attribute of self is seen here)."""
+    sym = read(repo, OUT, "build_filenames", cls="Outputs")
+    fn = sym.frames[0].fn
+    attrs = _self_attrs(sym)
     if attrs - {"save_data_to_file"}:
         fail(fn, f"build_filenames reads/writes other attributes of self: {sorted(attrs - {'save_data_to_file'})}")
-    for n in ast.walk(fn):
-        if isinstance(n, (ast.Global, ast.Nonlocal)):
-            fail(n, "build_filenames must not use global/nonlocal state")
-    loops = [n for n in body_no_doc(fn) if isinstance(n, ast.For)]
-    aliases = {st.targets[0].id for st in body_no_doc(fn)
-               if isinstance(st, ast.Assign) and len(st.targets) == 1 and isinstance(st.targets[0], ast.Name)
-               and ast.unparse(st.value) == "self.save_data_to_file"}
-    if len(loops) != 1 or not (ast.unparse(loops[0].iter) == "self.save_data_to_file"
-                               or (isinstance(loops[0].iter, ast.Name) and loops[0].iter.id in aliases)):
-        fail(fn, "build_filenames must iterate `self.save_data_to_file` in one top-level for loop")
-    templates = []
-    for n in ast.walk(fn):
-        if isinstance(n, ast.JoinedStr):
-            templates.append(tuple(v.value for v in n.values if isinstance(v, ast.Constant)))
-    if sorted(templates) != [("detector_", "."), ("detector_", "_", ".")]:
-        fail(fn, f"build_filenames: unexpected file name templates {templates}")
+    if any(ev.kind == "global" for ev in sym.events):
+        fail(fn, "build_filenames must not use global/nonlocal state")
+    if any(d for d in fn.decorator_list):
+        fail(fn, "build_filenames must not be decorated (cached)")
+    if "self.save_data_to_file" not in _iter_sources(sym):
+        fail(fn, "build_filenames must iterate `self.save_data_to_file`")
+    for ev in sym.events:       # nothing may be kept in a mutable default / function attribute
+        for n in ast.walk(ev.node):
+            if isinstance(n, ast.Attribute) and isinstance(n.ctx, ast.Store):
+                fail(ev.orig, "build_filenames stores into an attribute")
 
 
 def seq_new_stage(repo: Path) -> bool:
-    tree = parse(repo, "pyxel/observation/observation.py")
-    fn = find_func(tree, "_run_single_pipeline", cls="Observation")
-    calls = [n for n in ast.walk(fn) if isinstance(n, ast.Call) and _is_name(n.func, "run_pipeline")]
+    sym = read(repo, "pyxel/observation/observation.py", "_run_single_pipeline", cls="Observation")
+    fn = sym.frames[0].fn
+    calls = [c for _, c in sites(sym, name="run_pipeline")]
     if len(calls) != 1 or calls[0].args:
         fail(fn, "_run_single_pipeline must call run_pipeline once, with keywords")
     kw = {k.arg: k.value for k in calls[0].keywords}
-    if "output_filename_suffix" in kw:
+    if "output_filename_suffix" in kw and not (isinstance(kw["output_filename_suffix"], ast.Constant)
+                                               and kw["output_filename_suffix"].value is None):
         fail(calls[0], "_run_single_pipeline: run_pipeline(output_filename_suffix=...) is not a known shape")
     v = kw.get("outputs")
-    saves = [n for n in ast.walk(fn) if isinstance(n, ast.Call) and isinstance(n.func, ast.Attribute)
-             and n.func.attr == "save_to_file"]
+    saves = [c for _, c in sites(sym, attr="save_to_file")]
     if len(saves) != 1:
         fail(fn, "_run_single_pipeline must call outputs.save_to_file once")
+    if ast.unparse(saves[0].func.value) != "self.outputs":
+        fail(saves[0], "save_to_file must be called on self.outputs")
     skw = {k.arg: k.value for k in saves[0].keywords}
     if "run_number" not in skw or ast.unparse(skw["run_number"]) != "param_item.run_index":
         fail(saves[0], "save_to_file must be called with run_number=param_item.run_index")
-    if isinstance(v, ast.Attribute) and _is_name(v.value, "self") and v.attr == "outputs":
+    if v is not None and ast.unparse(v) == "self.outputs":
         return True
-    if isinstance(v, ast.Constant) and v.value is None:
+    if v is None or isinstance(v, ast.Constant) and v.value is None:
         return False
     fail(calls[0], "run_pipeline(outputs=...) must be self.outputs or None")
 
 
-def old_items_and_merge(repo: Path) -> tuple[bool, bool]:
-    tree = parse(repo, "pyxel/outputs/outputs.py")
-    fn = find_func(tree, "save_to_file", cls="Outputs")
-    outer = [n for n in fn.body if isinstance(n, ast.For)]
-    if len(outer) != 1:
-        fail(fn, "Outputs.save_to_file must have one top-level for loop")
-    flat = ("item for dct in self.save_data_to_file for item in dct.items()",
-            "(k, v) for dct in self.save_data_to_file for k, v in dct.items()")
-    if isinstance(outer[0].iter, (ast.ListComp, ast.GeneratorExp)):
-        # for valid_name, format_list in [item for dct in self.save_data_to_file for item in dct.items()]:
-        if ast.unparse(outer[0].iter)[1:-1] not in flat \
-                or ast.unparse(outer[0].target) != "(valid_name, format_list)":
-            fail(outer[0], "unknown flattened loop over the items of save_data_to_file")
-        return True, _old_store(outer[0])
-    if not (isinstance(outer[0].iter, ast.Attribute) and _is_name(outer[0].iter.value, "self")
-            and outer[0].iter.attr == "save_data_to_file" and _is_name(outer[0].target, "dct")):
-        fail(fn, "Outputs.save_to_file must loop `for dct in self.save_data_to_file`")
-    first = [n for n in ast.walk(outer[0]) if isinstance(n, ast.Assign) and isinstance(n.targets[0], ast.Tuple)
-             and any(isinstance(e, ast.Starred) for e in n.targets[0].elts)
-             and ast.unparse(n.value) == "dct.items()"]
-    inner = [n for n in outer[0].body if isinstance(n, ast.For) and ast.unparse(n.iter) == "dct.items()"]
-    if len(first) == 1 and not inner:
-        if ast.unparse(first[0].targets[0]) != "(first_item, *_)":
-            fail(first[0], "unexpected unpacking of dct.items()")
+def old_items_and_merge(sym: Sym) -> tuple[bool, bool]:
+    """Outputs.save_to_file: (every item of every dict is saved, the formats of a bucket named twice are merged)."""
+    fn = sym.frames[0].fn
+    srcs = _iter_sources(sym)
+    if "self.save_data_to_file" not in srcs:
+        fail(fn, "Outputs.save_to_file must iterate self.save_data_to_file")
+    dict_vars = set()
+    for ev in sym.events:
+        if ev.kind == "for" and ast.unparse(ev.node.iter) == "self.save_data_to_file" and isinstance(ev.node.target, ast.Name):
+            dict_vars.add(ev.node.target.id)
+        for n in ast.walk(ev.node):
+            if isinstance(n, ast.comprehension) and ast.unparse(n.iter) == "self.save_data_to_file" \
+                    and isinstance(n.target, ast.Name):
+                dict_vars.add(n.target.id)
+    item_iters = [s for s in srcs if any(s == f"{d}.items()" for d in dict_vars)]
+    # a partial look at the items: `first, *_ = dct.items()`, next(iter(...)), indexing a list of them
+    partial = []
+    for ev in sym.events:
+        if ev.kind == "assign" and any(isinstance(t, (ast.Tuple, ast.List)) for t in ev.node.targets) \
+                and any(ast.unparse(c.func) in {f"{d}.items" for d in dict_vars} | {f"{d}.keys" for d in dict_vars}
+                        for c in ast.walk(ev.node.value) if isinstance(c, ast.Call)):
+            partial.append(ev)
+        elif any(isinstance(c, ast.Call) and ast.unparse(c.func) in ("next", "iter") for c in ast.walk(ev.node)) \
+                and any(f"{d}.items()" in ev.src() or f"iter({d})" in ev.src() for d in dict_vars):
+            partial.append(ev)
+    if partial and not item_iters:
         all_items = False
-        scope = outer[0]
-    elif len(inner) == 1 and not first:
-        if ast.unparse(inner[0].target) != "(valid_name, format_list)":
-            fail(inner[0], "inner loop must be `for valid_name, format_list in dct.items()`")
+    elif item_iters and not partial:
         all_items = True
-        scope = inner[0]
     else:
-        fail(outer[0], "Outputs.save_to_file: neither the first-item shape nor a loop over dct.items()")
-    return all_items, _old_store(scope)
+        fail(fn, "Outputs.save_to_file: neither the first-item shape nor a loop over the items of every dict")
+    return all_items, _old_store(sym)
 
 
-def _old_store(scope) -> bool:
-    """True if the per-bucket result is merged into all_filenames, False if it replaces the entry."""
-    stores = []
-    for n in ast.walk(scope):
-        if isinstance(n, ast.Assign) and isinstance(n.targets[0], ast.Subscript) \
-                and _is_name(n.targets[0].value, "all_filenames"):
-            stores.append(("replace", ast.unparse(n)))
-        if isinstance(n, ast.Call) and isinstance(n.func, ast.Attribute) and n.func.attr in ("update", "setdefault") \
-                and "all_filenames" in ast.unparse(n.func.value):
-            if n.func.attr == "update":
-                stores.append(("merge", ast.unparse(n)))
+def _old_store(sym: Sym) -> bool:
+    """True if the per-bucket result is merged into the result mapping, False if it replaces the entry."""
+    fn = sym.frames[0].fn
+    # the result mapping: the local dict handed to _dict_to_datatree / returned
+    accs = set()
+    events = [ev for ev in sym.events if not ev.in_ctx("called")]     # a helper read with unbound parameters has its own dicts
+    for ev in events:
+        if ev.kind == "assign" and isinstance(ev.node.targets[0], ast.Name) and isinstance(ev.orig, (ast.Assign, ast.AnnAssign)) \
+                and isinstance(ev.orig.value, (ast.Dict, ast.Call)) and ast.unparse(ev.orig.value) in ("{}", "dict()") \
+                and not ev.in_ctx("loop"):
+            accs.add(ev.node.targets[0].id)
+    stores, inits = [], set()
+    for ev in events:
+        o = ev.node
+        if ev.kind == "assign" and isinstance(o.targets[0], ast.Subscript) and isinstance(o.targets[0].value, ast.Name) \
+                and o.targets[0].value.id in accs:
+            key = f"{ast.unparse(o.targets[0].slice)} in {o.targets[0].value.id}"
+            if ast.unparse(o.value) in ("{}", "dict()") and (key, False) in [(t, p) for t, p, _ in cond_literals(ev.conds, False)]:
+                inits.add(ast.unparse(o.targets[0]))       # `if k not in acc: acc[k] = {}`: the entry is created once
+                continue
+            stores.append(("replace", ev))
+        elif ev.kind == "expr" and isinstance(o.value, ast.Call) and isinstance(o.value.func, ast.Attribute) \
+                and o.value.func.attr == "update":
+            base = o.value.func.value
+            if isinstance(base, ast.Call) and isinstance(base.func, ast.Attribute) and base.func.attr == "setdefault" \
+                    and isinstance(base.func.value, ast.Name) and base.func.value.id in accs \
+                    and len(base.args) == 2 and ast.unparse(base.args[1]) in ("{}", "dict()"):
+                stores.append(("merge", ev))
+            elif isinstance(base, ast.Name) and base.id in accs:
+                stores.append(("replace", ev))           # acc.update({k: v}) replaces the entry of k
+            elif isinstance(base, ast.Subscript) and isinstance(base.value, ast.Name) and base.value.id in accs \
+                    and ast.unparse(base) in inits:
+                stores.append(("merge", ev))
+            elif any(isinstance(n, ast.Name) and n.id in accs for n in ast.walk(base)):
+                fail(ev.orig, "unknown store into the result mapping")
+        elif ev.kind == "augstore" and any(isinstance(n, ast.Name) and n.id in accs for n in ast.walk(o.target)):
+            fail(ev.orig, "unknown store into the result mapping")
+    stores = [(k, ev) for k, ev in stores if ev.in_ctx("loop")]
     if len(stores) != 1:
-        fail(scope, f"Outputs.save_to_file: expected one store into all_filenames, found {stores}")
-    kind, text = stores[0]
-    if kind == "replace":
-        if text != "all_filenames[valid_name] = partial_filenames":
-            fail(scope, f"unknown store {text}")
-        return False
-    if text != "all_filenames.setdefault(valid_name, {}).update(partial_filenames)":
-        fail(scope, f"unknown store {text}")
-    return True
+        fail(fn, f"Outputs.save_to_file: expected one store into the result mapping, found {len(stores)}")
+    return stores[0][0] == "merge"
 
 
 def dask_snapshot(repo: Path) -> bool:
-    tree = parse(repo, "pyxel/observation/observation_dask.py")
-    fn = find_func(tree, "run_pipelines_with_dask")
-    calls = [n for n in ast.walk(fn) if isinstance(n, ast.Call) and ast.unparse(n.func) == "xr.apply_ufunc"]
+    sym = read(repo, "pyxel/observation/observation_dask.py", "run_pipelines_with_dask")
+    fn = sym.frames[0].fn
+    calls = [c for _, c in sites(sym, name="apply_ufunc")]
     if len(calls) != 1:
         fail(fn, "run_pipelines_with_dask must call xr.apply_ufunc once")
     kw = {k.arg: k.value for k in calls[0].keywords}
     d = kw.get("kwargs")
-    if not isinstance(d, ast.Dict):
+    if isinstance(d, ast.Call) and _is_name(d.func, "dict") and not d.args:
+        ent = {k.arg: k.value for k in d.keywords}
+    elif isinstance(d, ast.Dict):
+        ent = {k.value: v for k, v in zip(d.keys, d.values) if isinstance(k, ast.Constant)}
+        if len(ent) != len(d.keys):
+            fail(d, "apply_ufunc kwargs with ** / computed keys")
+    else:
         fail(calls[0], "apply_ufunc(kwargs=...) must be a dict display")
-    ent = {k.value: v for k, v in zip(d.keys, d.values) if isinstance(k, ast.Constant)}
     if "outputs" not in ent:
         fail(d, 'apply_ufunc kwargs must have an "outputs" entry')
     v = ent["outputs"]
@@ -406,55 +1222,141 @@ def dask_snapshot(repo: Path) -> bool:
     fail(v, 'the "outputs" entry must be `outputs` or `deepcopy(outputs)`')
 
 
+# ------------------------------------------------------------------------------------------ automatic numbering
+
+
+def _linear(e: ast.AST):
+    """e == core + k for an int literal k (any nesting of +)."""
+    k = 0
+    while isinstance(e, ast.BinOp) and isinstance(e.op, ast.Add):
+        if isinstance(e.right, ast.Constant) and type(e.right.value) is int:
+            k, e = k + e.right.value, e.left
+        elif isinstance(e.left, ast.Constant) and type(e.left.value) is int:
+            k, e = k + e.left.value, e.right
+        else:
+            break
+    return e, k
+
+
+def _max_like(e: ast.AST):
+    """(iterable, default | None) if e is the largest element of an iterable: max(X[, default=d]), sorted(X)[-1]."""
+    if isinstance(e, ast.Subscript) and isinstance(e.slice, ast.UnaryOp) and isinstance(e.slice.op, ast.USub) \
+            and isinstance(e.slice.operand, ast.Constant) and e.slice.operand.value == 1 \
+            and isinstance(e.value, ast.Call) and _is_name(e.value.func, "sorted") and len(e.value.args) == 1 \
+            and not e.value.keywords:
+        return e.value.args[0], None
+    if isinstance(e, ast.Call) and _is_name(e.func, "max") and len(e.args) == 1:
+        kw = {k.arg: k.value for k in e.keywords}
+        if set(kw) - {"default"}:
+            return None
+        d = None
+        if "default" in kw:
+            if not (isinstance(kw["default"], ast.Constant) and type(kw["default"].value) is int):
+                return None
+            d = kw["default"].value
+        x = e.args[0]
+        while isinstance(x, ast.Call) and isinstance(x.func, ast.Name) and x.func.id in ("sorted", "list", "tuple") \
+                and len(x.args) == 1 and not x.keywords:
+            x = x.args[0]
+        return x, d
+    return None
+
+
+def _leaves(e: ast.AST, lits):
+    if isinstance(e, ast.IfExp):
+        return _leaves(e.body, lits + literals(e.test, True)) + _leaves(e.orelse, lits + literals(e.test, False))
+    return [(e, lits)]
+
+
+def auto_number(repo: Path) -> tuple[int, int]:
+    """apply_run_number: (step added to the largest number found, number used when nothing matches).  The way
+    the largest number is taken (sorted()[-1] / max / max(default=)), where the per-name function lives and how
+    the branches are arranged do not matter; what the per-name function computes is the model's `get_number`,
+    compared by the correspondence on zero-padded / dotted / unnumbered names."""
+    sym = read(repo, UTL, "apply_run_number")
+    fn = sym.frames[0].fn
+    mod = Mod.get(repo, UTL)
+    leaves = []
+    nfmt = 0
+    for ev, c in sites(sym, attr="format"):
+        if True:
+            nfmt += 1
+            if len(c.args) != 1 or c.keywords or not ast.unparse(c.func.value).endswith(".replace('?', '{}')"):
+                fail(ev.orig, "the number must be put in by <template>.replace('?', '{}').format(<number>)")
+            if ev.in_ctx("loop"):
+                fail(ev.orig, "format call inside a loop")
+            leaves += _leaves(c.args[0], cond_literals(ev.conds, False) + cond_literals(ev.conds, True))
+    if not leaves:
+        fail(fn, "apply_run_number: no format call")
+    step = first = None
+    maxes, consts, params = [], [], []
+    for e, lits in leaves:
+        signs = {txt: pol for txt, pol, _ in lits}
+        core, k = _linear(e)
+        if _is_name(core, "run_number"):
+            if signs.get("run_number is None") is not False or k != 1:
+                fail(e, "with a run number the file number must be run_number + 1, only when it is not None")
+            params.append(k)
+            continue
+        if signs.get("run_number is None") is not True:
+            fail(e, "the automatic number must be used exactly when run_number is None")
+        ml = _max_like(core)
+        if ml is not None:
+            maxes.append((ml[0], ml[1], k, signs))
+        elif isinstance(core, ast.Constant) and type(core.value) is int and core.value + k >= 0:
+            consts.append((core.value + k, signs))
+        else:
+            fail(e, "automatic number: neither <largest number found> + <int> nor an int")
+    if len(params) < 1 or not maxes or len({_dump(x) for x, _, _, _ in maxes}) != 1 or len({k for _, _, k, _ in maxes}) != 1:
+        fail(fn, "apply_run_number: number shapes")
+    it, default, step, signs = maxes[0]
+    if step < 0:
+        fail(fn, "negative step")
+    if default is None:
+        if len(consts) != 1:
+            fail(fn, "apply_run_number: no number for the case that nothing matches")
+        first = consts[0][0]
+        ittxt = ast.unparse(it)
+        empties = [txt for txt, pol in consts[0][1].items() if ittxt in txt and txt not in ("run_number is None",)]
+        if not empties:
+            fail(fn, "apply_run_number: the first number must be chosen by a test of the matching names")
+    else:
+        if consts:
+            fail(fn, "apply_run_number: both a default and a separate first number")
+        first = default + step
+    # the iterable: <per-name number>(name) for every name of glob(<template with * for ?>)
+    if isinstance(it, (ast.GeneratorExp, ast.ListComp)) and len(it.generators) == 1 and not it.generators[0].ifs \
+            and isinstance(it.elt, ast.Call) and isinstance(it.elt.func, ast.Name) and len(it.elt.args) == 1 \
+            and _dump(it.elt.args[0]) == _dump(ast.Name(id=it.generators[0].target.id, ctx=ast.Load())
+                                               if isinstance(it.generators[0].target, ast.Name) else it):
+        g, src = it.elt.func.id, it.generators[0].iter
+    elif isinstance(it, ast.Call) and _is_name(it.func, "map") and len(it.args) == 2 and isinstance(it.args[0], ast.Name):
+        g, src = it.args[0].id, it.args[1]
+    else:
+        fail(it, "the numbers must be <function>(name) for every matching name")
+    while isinstance(src, ast.Call) and isinstance(src.func, ast.Name) and src.func.id in ("sorted", "list") and len(src.args) == 1:
+        src = src.args[0]
+    if not (isinstance(src, ast.Call) and ast.unparse(src.func) in ("glob", "glob.glob") and len(src.args) == 1
+            and ast.unparse(src.args[0]).endswith(".replace('?', '*')")):
+        fail(src, "the matching names must come from glob(<template>.replace('?', '*'))")
+    gfn = sym.frames[0].nested.get(g)
+    gmod = mod
+    if gfn is None:
+        hit = mod.find_function(g)
+        if hit is None:
+            fail(it, f"per-name function {g} not found")
+        gmod, gfn = hit
+    gs = Sym(gmod, gfn)
+    consts_g = {n.value for ev in gs.events for root in [ev.node] + [t for t, _, _ in ev.conds] for n in ast.walk(root)
+                if isinstance(n, ast.Constant) and isinstance(n.value, str)}
+    if "\\d+$" not in consts_g or not any(calls_in(ev.node, name="int") for ev in gs.events):
+        fail(gfn, "per-name function: the trailing digits (\\d+$) converted by int() expected")
+    return step, first
+
+
 def coq_str(s: str) -> str:
     assert all(32 <= ord(c) < 127 and c != '"' for c in s), s
     return '"' + s + '"'
-
-
-def auto_number(utils_tree) -> tuple[int, int]:
-    """apply_run_number: (step added to the largest number found, number used when nothing matches)."""
-    fn = find_func(utils_tree, "apply_run_number")
-    inner = [n for n in fn.body if isinstance(n, ast.FunctionDef) and n.name == "get_number"]
-    if len(inner) != 1:
-        fail(fn, "apply_run_number must define get_number")
-    gsrc = ast.unparse(inner[0])
-    if "re.search('\\\\d+$', string.split('.')[-2])" not in gsrc or "return 0" not in gsrc \
-            or "int(search.group())" not in gsrc:
-        fail(inner[0], "get_number: unknown shape")
-    assigns = {}
-    for n in ast.walk(fn):
-        if isinstance(n, (ast.Assign, ast.AnnAssign)):
-            tgt = n.target if isinstance(n, ast.AnnAssign) else n.targets[0]
-            if isinstance(tgt, ast.Name) and n.value is not None:
-                assigns.setdefault(tgt.id, []).append(n.value)
-    want = {"path_str_for_glob": ["template_str.replace('?', '*')"], "dir_list": ["glob(path_str_for_glob)"],
-            "num_list": ["sorted((get_number(d) for d in dir_list))"]}
-    for k, v in want.items():
-        if [ast.unparse(x) for x in assigns.get(k, [])] != v:
-            fail(fn, f"apply_run_number: `{k}` must be {v[0]}")
-    nx = assigns.get("next_num", [])
-    if len(nx) != 2:
-        fail(fn, "apply_run_number: two assignments of next_num expected")
-    step = first = None
-    for v in nx:
-        if isinstance(v, ast.BinOp) and isinstance(v.op, ast.Add) and ast.unparse(v.left) == "num_list[-1]" \
-                and isinstance(v.right, ast.Constant) and isinstance(v.right.value, int) \
-                and not isinstance(v.right.value, bool) and v.right.value >= 0:
-            step = v.right.value
-        elif isinstance(v, ast.Constant) and isinstance(v.value, int) and not isinstance(v.value, bool) and v.value >= 0:
-            first = v.value
-        else:
-            fail(v, "next_num must be `num_list[-1] + <int>` or an int literal")
-    if step is None or first is None:
-        fail(fn, "apply_run_number: next_num shapes")
-    ifs = [n for n in ast.walk(fn) if isinstance(n, ast.If) and ast.unparse(n.test) == "num_list"]
-    if len(ifs) != 1 or "num_list[-1]" not in ast.unparse(ifs[0].body[0]):
-        fail(fn, "apply_run_number: `if num_list:` must select the largest-number branch")
-    fmt_calls = [ast.unparse(n) for n in ast.walk(fn) if isinstance(n, ast.Call) and isinstance(n.func, ast.Attribute)
-                 and n.func.attr == "format"]
-    if sorted(fmt_calls) != ["path_str.format(next_num)", "path_str.format(run_number + 1)"]:
-        fail(fn, f"apply_run_number: unexpected format calls {fmt_calls}")
-    return step, first
 
 
 def cb(b: bool) -> str:
@@ -481,26 +1383,38 @@ def render(excl: bool, writers, new_tab, old_tab, exts, flags, auto=(1, 1)) -> s
 
 
 def translate(repo: Path) -> str:
+    try:
+        return _translate(repo)
+    except TranslationError:
+        raise
+    except RecursionError as ex:
+        raise TranslationError(f"source too deep to read: {ex}") from ex
+    except (AttributeError, KeyError, IndexError, TypeError, ValueError, AssertionError) as ex:
+        # a shape the reader itself does not cope with: fail closed, never crash the check
+        raise TranslationError(f"unreadable source shape ({type(ex).__name__}: {ex})") from ex
+
+
+def _translate(repo: Path) -> str:
+    Mod._cache.clear()
     excl = mkdir_loop(repo)
-    utils = parse(repo, "pyxel/outputs/utils.py")
-    ow = new_overwrite(repo, utils)
+    ow = new_overwrite(repo)
     writers, exts = [], []
     for w in OLD_WRITERS:
-        fn = find_func(utils, w)
-        writers.append((w, writer_behaviour(fn)))
-        exts.append((w, old_ext(fn)))
+        sym = read(repo, UTL, w)
+        writers.append((w, writer_behaviour(sym)[0]))
+        exts.append((w, old_ext(sym)))
     for w in NEW_WRITERS:
-        fn = find_func(utils, w)
-        b = writer_behaviour(fn)
-        if ow and b in ("Skip", "Raise") and _guarded_by_overwrite(fn):
+        b, guarded = writer_behaviour(read(repo, UTL, w))
+        if ow and b in ("Skip", "Raise") and guarded:
             b = "Overwrite"          # the existence test is disabled by overwrite=True
         writers.append((w, b))
-    new_tab = new_dispatch(find_func(utils, "save_to_files"))
-    old_tab = old_dispatch(repo)
+    new_tab = new_dispatch(repo)
+    old_sym = read(repo, OUT, "save_to_file", cls="Outputs")
+    old_tab = old_dispatch(repo, old_sym)
     check_build_filenames(repo)
-    all_items, merge = old_items_and_merge(repo)
+    all_items, merge = old_items_and_merge(old_sym)
     flags = (seq_new_stage(repo), all_items, merge, dask_snapshot(repo))
-    return render(excl, writers, new_tab, old_tab, exts, flags, auto_number(utils))
+    return render(excl, writers, new_tab, old_tab, exts, flags, auto_number(repo))
 
 
 # the text for the unchanged tree (C19-F17a/b/c/d repaired)
